@@ -19,6 +19,7 @@ class Walker:
         self.use_cache = use_cache
         self.met = []          # (key nibbles, value) seen by walk steps
         self.steps = 0
+        self.says_done = False
 
     def fog_list(self):
         return [[int(x) for x in p] for p in self.fog._unexplored_prefixes]
@@ -30,9 +31,13 @@ class Walker:
         k = op[0]
         if k == "step":
             self.steps += 1
+            self.says_done = False
             try:
                 prefix = self.fog.nearest_unknown(tuple(op[2])) if op[1] else self.fog.nearest_right(tuple(op[2]))
             except Exception as e:
+                from trie.exceptions import PerfectVisibility
+                # what a walker written as `except PerfectVisibility: finished` would conclude
+                self.says_done = isinstance(e, PerfectVisibility)
                 return C.exc_obs(e, with_attrs=False)
             cached = None
             if self.use_cache:
